@@ -84,8 +84,8 @@ class ProgressBar(
 
     @property
     def startval(self):
-        """The progress integer value to start with. It must be smaller than
-        `maxval`.
+        """The progress integer value to start with. It must not be greater
+        than `maxval`.
         """
         return self._startval
 
@@ -95,10 +95,10 @@ class ProgressBar(
             v,
             'The startval property must be castable to an integer value!')
 
-        if v >= self._maxval:
+        if v > self._maxval:
             raise ValueError(
-                f'The startval value ({v}) must be smaller than the value of '
-                f'the `maxval` property ({self._maxval})!')
+                f'The startval value ({v}) must not be greater than the value '
+                f'of the `maxval` property ({self._maxval})!')
 
         self._startval = v
 
